@@ -113,6 +113,15 @@ CHILD_MUTATORS = {'insertRule', 'deleteRule', 'add', 'setProperty', 'removePrope
                   'removeVariable', 'appendMedium', 'deleteMedium', 'appendSelector', '_replaceNamespaceURI',
                   '_setSeq', '_clearSeq', '_setCssTextWithEncodingOverride', '_setFetcher', '_updateVariables',
                   '_cleanNamespaces'}
+# private helpers of a child object called at sites that stay `mayRaise; mutate f` (no script of their own): (script,
+# helper) -> why the contract "raises with the child unchanged, or changes the child" holds there. A helper dependency
+# that is not listed here ends up in `helperDepsUnjustified` and breaks the theorem `helper_deps_justified`.
+ASSUMED_HELPERS = {
+    ('CSSStyleSheet.cssText', '_replaceNamespaceURI'):
+        'cssnamespacerule.py:281-292 assigns _namespaceURI and replaces one item of the rule\'s own seq, no check, no '
+        'log call: it cannot raise; the receivers are rules of the NEW rule list (cssstylesheet.py:239-241, '
+        '`self.cssRules` is the list assigned at :328), never objects of the state that a rejection must restore',
+}
 # dependency name -> member name of the extracted scripts that cover it (identity if absent)
 DEP_MEMBER = {}
 PURE_FUNCS = {'isinstance', 'len', 'list', 'tuple', 'dict', 'set', 'reversed', 'enumerate', 'str', 'bool', 'int',
@@ -2202,6 +2211,10 @@ def generate(repo):
     lines.append(',\n'.join('  ("%s", [%s])' % (r['name'], ', '.join('"%s"' % d for d in r['deps'] if d not in TARGET_MEMBERS))
                              for r in recs if any(d not in TARGET_MEMBERS for d in r['deps'])))
     lines.append(']\n')
+    unj = [(r['name'], d) for r in recs for d in r['deps']
+           if d not in TARGET_MEMBERS and (r['name'], d) not in ASSUMED_HELPERS]
+    lines.append('/-- helper dependencies for which the translator has no recorded justification (none expected) -/')
+    lines.append('def helperDepsUnjustified : List (String × String) := [%s]\n' % ', '.join('("%s", "%s")' % u for u in unj))
     lines.append('/-- number of `call` statements in the scripts above -/')
     lines.append('def callSites : Nat := %d\n' % sum(count_calls(r['body']) for r in recs))
     lines.append('/-- mutators the translator could not extract (none expected) -/')
